@@ -1497,6 +1497,60 @@ def rule_find_sem(ctx: RuleContext, p: Program, rid: str, max_len: int = 4) -> N
     if n < 1000 and not problem:
         raise AnalysisError(f'FIND-SEM: only {n} runs evaluated')
     ctx.check(not problem, rid, 'models.internal.interleaving_comments:_CommentClaimer._find_outer', 'outward scan', problem, fo.where, note=f'{n} runs')
+    # ---- the inward scan (round 10): between the field's first token and its last item
+    fi = cl.lookup('_find_inner')
+    if not isinstance(fi, FuncInfo):
+        raise AnalysisError('FIND-SEM: _CommentClaimer._find_inner not found')
+    n_in = 0
+    problem_in = ''
+    gap_kinds = 'bzcuC'
+    runs = [''] + [a for a in gap_kinds] + [a + b for a in gap_kinds for b in gap_kinds]
+    for n_items, universe in [(k_, u_) for k_ in range(0, 3) for u_ in (False, True)]:
+        # universe: claim whatever is found (the parser's call: every comment is asked for, so only the claimed flag tells an owned comment apart)
+        for gaps in itertools.product(runs if n_items < 2 else [r for r in runs if len(r) < 2 or r in ('cc', 'cC', 'Cc', 'uc', 'cb', 'bc')], repeat=n_items):
+            ph = possem.Obj('Eol', {'raw_text': ''}, 'placeholder')
+            chain = [ph]
+            items = []
+            want = []
+            selected = []
+            for i, run in enumerate(gaps):
+                for j, ch in enumerate(run):
+                    t = possem.Obj(kinds[ch][0], {'raw_text': kinds[ch][1], 'claimed': ch == 'C'}, f'gap{i}.{j}:{ch}')
+                    chain.append(t)
+                    if ch == 'c' or (universe and ch in 'uC'):
+                        selected.append(id(t))
+                    if ch == 'c' or (universe and ch == 'u'):
+                        want.append(t)
+                a, b = possem.Obj('Account', {'raw_text': 'x'}, f'item{i}.first'), possem.Obj('Account', {'raw_text': 'y'}, f'item{i}.last')
+                chain += [a, b]
+                it_ = possem.Obj('Item', {'first_token': a, 'last_token': b}, f'item{i}')
+                items.append(it_)
+                want.append(it_)
+            tail = possem.Obj('BlockComment', {'raw_text': '; after', 'claimed': False}, 'comment behind the last item')
+            chain.append(tail)
+            selected.append(id(tail))
+            nxt = {id(t): (chain[i + 1] if i + 1 < len(chain) else None) for i, t in enumerate(chain)}
+            store = possem.Obj('Store', {'get_next': (lambda t, nxt=nxt: nxt[id(t)])}, 'store')
+            rep = possem.Obj('Repeated', {'token_store': store, 'items': list(items), 'first_token': ph, 'placeholder': ph}, 'repeated')
+            me = possem.Obj('_CommentClaimer', {'_comments_to_claim': list(selected), '_repeated': rep}, 'claimer')
+            n_in += 1
+            try:
+                got = Interp(ts, [], module=m).call_function(fi, [me], {})
+                got = list(got or [])
+            except possem.Raised as ex:
+                problem_in = problem_in or f'{n_items} item(s), gaps {gaps}: raises {ex}'
+                continue
+            if [id(x) for x in got] != [id(x) for x in want] and not problem_in:
+                legend = 'b blank, z zero-width, c unclaimed comment to claim, u unclaimed comment not asked for, C claimed comment'
+                problem_in = (f'{n_items} item(s) with the tokens {list(gaps)} in front of them ({legend}){", every comment asked for" if universe else ""}: yields {[x.label for x in got]}, expected '
+                              f'{[x.label for x in want]} -- every selected unclaimed comment in front of an item, then the item, in document order')
+            elif not problem_in and any(id(x) in me.f['_comments_to_claim'] for x in want if x.cls == 'BlockComment'):
+                problem_in = f'{n_items} item(s), gaps {gaps}: a yielded comment stays in the not-found set'
+            elif not problem_in and id(tail) not in me.f['_comments_to_claim']:
+                problem_in = f'{n_items} item(s), gaps {gaps}: the comment behind the last item is taken by the inward scan (it belongs to the outward one)'
+    if n_in < 150 and not problem_in:
+        raise AnalysisError(f'FIND-SEM: only {n_in} inward runs evaluated')
+    ctx.check(not problem_in, rid, 'models.internal.interleaving_comments:_CommentClaimer._find_inner', 'inward scan', problem_in, fi.where, note=f'{n_in} runs')
 
 
 # ====================================================================== DESC-STATE (C10 / C11 / C18, added in round 7)
